@@ -43,7 +43,10 @@ def plan(tier):
 def trace(draw, tier):
     tps = draw(st.sampled_from([10, 100, 3, 7, 1, 2, 5, 20, 30, 128, 1000, 100000]) | st.integers(1, 100000))
     n = draw(st.integers(1, 12))
-    span = draw(st.sampled_from([3000, 300, 30000, 10 ** 7, 3 * 10 ** 7]))
+    span = draw(st.sampled_from([3000, 300, 30000, 10 ** 7, 3 * 10 ** 7, 10 ** 8]))
+    if span >= 10 ** 7 and draw(st.integers(0, 3)):
+        # millions of ticks: decimal tick rates, where exact-decimal grid values with a float product below the integer exist
+        tps = draw(st.sampled_from([100, 100000, 1000, 10000]))
     ks = sorted(draw(st.lists(st.integers(0, span), min_size=n, max_size=n)))
     arr = []
     for k in ks:
@@ -56,7 +59,7 @@ def trace(draw, tier):
         elif style == "dec_below":
             # an exact decimal on the grid whose float product with tps lies below the integer (0.29 * 100 = 28.999999999999996)
             s = None
-            for kk in range(k, k + 300):
+            for kk in range(k, k + 3000):
                 cand = dec(F(kk, tps))
                 if cand and float(cand) * tps < kk:
                     s = cand
